@@ -138,6 +138,8 @@ class NB:
         s = d(st.sampled_from([1, 2, 2])) if force_stride is None else force_stride
         pad = d(st.sampled_from(["SAME", "VALID"]))
         oc = d(st.integers(1, 16))
+        if force_stride is None and d(st.integers(0, 2)) == 0:
+            return self.tconv_rect(x, pad, oc)
         oh, ow = (h * s, w * s) if pad == "SAME" else ((h - 1) * s + k, (w - 1) * s + k)
         wdt = "uint8" if dt == "uint8" else "int8"
         seed = d(st.integers(0, 1 << 30))
@@ -148,25 +150,57 @@ class NB:
         self.op("TRANSPOSE_CONV", [shp, wt, x, bt], [o], "TransposeConvOptions", dict(Padding=0 if pad == "SAME" else 1, StrideW=s, StrideH=s), version=3)
         return o
 
+    def tconv_rect(self, x, pad, oc):
+        """TRANSPOSE_CONV with a rectangular kernel and, on one-row inputs, the 2x1 (WxH) stride"""
+        d, st = self.draw, self.st
+        X = self.info(x)
+        n, h, w, c = X["shape"]
+        dt = X["dtype"]
+        kh, kw = d(st.integers(1, 4)), d(st.integers(1, 4))
+        sh = sw = d(st.sampled_from([1, 2]))
+        if h == 1 and d(st.booleans()):
+            kh, sh, sw = 1, 1, 2
+        oh, ow = (h * sh, w * sw) if pad == "SAME" else (h * sh + max(kh - sh, 0), w * sw + max(kw - sw, 0))
+        wdt = "uint8" if dt == "uint8" else "int8"
+        seed = d(st.integers(0, 1 << 30))
+        wt = self.t("w", [oc, kh, kw, c], wdt, 0.01, 0 if dt != "uint8" else 128, self.wdata(wdt, seed))
+        bt = self.t("b", [oc], "int32", 0.01 * float(X["scale"]), 0, dict(seed=seed + 1, lo=-1000, hi=1000))
+        shp = self.const_i32("oshape", [n, oh, ow, oc])
+        o = self.out("tconv", [n, oh, ow, oc], dt, self.quant(dt))
+        self.op("TRANSPOSE_CONV", [shp, wt, x, bt], [o], "TransposeConvOptions", dict(Padding=0 if pad == "SAME" else 1, StrideW=sw, StrideH=sh), version=3)
+        return o
+
     def fc(self, x):
         d, st = self.draw, self.st
         X = self.info(x)
         dt = X["dtype"]
         shape = X["shape"]
+        keep_dims = False
         if len(shape) != 2:
-            n = shape[0]
-            flat = int(math.prod(shape[1:]))
-            x = self.reshape(x, [n, flat])
-            X = self.info(x)
-        n, c = X["shape"]
+            rows = int(math.prod(shape[:-1]))
+            how = d(st.sampled_from(["flat", "flat", "rows", "keep"])) if len(shape) > 1 and rows <= 96 else "flat"
+            if how == "flat":
+                n = shape[0]
+                flat = int(math.prod(shape[1:]))
+                x = self.reshape(x, [n, flat])
+                X = self.info(x)
+            elif how == "rows":  # batched fully connected: one row per position
+                x = self.reshape(x, [rows, shape[-1]])
+                X = self.info(x)
+            else:  # keep_num_dims: the operator works on the last dimension of a rank 3/4 tensor
+                keep_dims = True
+        n, c = (X["shape"][0], X["shape"][1]) if not keep_dims else (int(math.prod(shape[:-1])), shape[-1])
         oc = d(st.one_of(st.integers(1, 8), st.integers(1, 48)))
         wdt = "uint8" if dt == "uint8" else "int8"
         seed = d(st.integers(0, 1 << 30))
         ws = d(st.sampled_from([0.01, 0.005, 0.02]))
         wt = self.t("w", [oc, c], wdt, ws, 0 if dt != "uint8" else d(st.integers(0, 255)), self.wdata(wdt, seed))
         bt = self.t("b", [oc], "int32", ws * float(X["scale"]), 0, dict(seed=seed + 1, lo=-2000, hi=2000))
-        o = self.out("fc", [n, oc], dt, self.quant(dt))
-        self.op("FULLY_CONNECTED", [x, wt, bt], [o], "FullyConnectedOptions", dict(FusedActivationFunction=ACT[self.act()]), version=4)
+        o = self.out("fc", [n, oc] if not keep_dims else shape[:-1] + [oc], dt, self.quant(dt))
+        fields = dict(FusedActivationFunction=ACT[self.act()])
+        if keep_dims:
+            fields["KeepNumDims"] = True
+        self.op("FULLY_CONNECTED", [x, wt, bt], [o], "FullyConnectedOptions", fields, version=4)
         return o
 
     def pool(self, x, kind, pad=None):
@@ -176,6 +210,12 @@ class NB:
         kh, kw = d(st.integers(1, min(4, h))), d(st.integers(1, min(4, w)))
         sh, sw = d(st.sampled_from([1, 2, 2, 3])), d(st.sampled_from([1, 2, 2, 3]))
         pad = pad or d(st.sampled_from(["SAME", "VALID"]))
+        if kind == "avgpool" and pad == "VALID" and w >= 4 and d(st.integers(0, 3)) == 0:
+            # wide strides: documented for one-row outputs (the operator becomes a convolution whose stride is folded into the channels)
+            sw = d(st.sampled_from([4, 4, 6, 5, 8]))
+            kw = d(st.integers(1, min(w, sw)))
+            if d(st.booleans()):
+                kh, sh = h, 1  # one output row
         if pad == "SAME":
             oh, ow = -(-h // sh), -(-w // sw)
         else:
@@ -234,7 +274,27 @@ class NB:
             cands = [[1, total], [total], [1, 1, 1, total]]
             s = X["shape"]
             if len(s) == 4:
-                cands += [[s[0], s[1] * s[2], 1, s[3]], [s[0], s[2], s[1], s[3]], [s[0], 1, s[1] * s[2], s[3]]]
+                cands += [[s[0], s[1] * s[2], 1, s[3]], [s[0], s[2], s[1], s[3]], [s[0], 1, s[1] * s[2], s[3]], [s[1], s[2], s[3]], [s[1] * s[2], s[3]]]
+                if s[0] == 1 and s[1] > 1:
+                    cands.append([s[1], 1, s[2], s[3]])  # a leading dimension other than 1
+            if len(s) == 3:
+                cands += [[1] + s, [s[0], 1, s[1], s[2]]]
+            if len(s) <= 3 and d(st.integers(0, 3)) == 0:
+                # EXPAND_DIMS spells the same re-shaping with an axis operand
+                axis = d(st.integers(0, len(s)))
+                so = s[:axis] + [1] + s[axis:]
+                o = self.out("expand_dims", so, X["dtype"], (X["scale"], X["zp"]))
+                self.op("EXPAND_DIMS", [x, self.t("axis", [], "int32", data=dict(values=[axis if d(st.booleans()) else axis - len(so)]))], [o], "ExpandDimsOptions", {})
+                return o
+            ones = [i for i, v in enumerate(s) if v == 1]
+            if ones and len(s) > 1 and d(st.integers(0, 3)) == 0:
+                # SQUEEZE of some (or, with an empty list, all) dimensions of extent 1
+                drop = ones if d(st.booleans()) else [d(st.sampled_from(ones))]
+                so = [v for i, v in enumerate(s) if i not in drop] or [1]
+                o = self.out("squeeze", so, X["dtype"], (X["scale"], X["zp"]))
+                dims = [] if (drop == ones and d(st.booleans()) and so != [1]) else [i if d(st.booleans()) else i - len(s) for i in drop]
+                self.op("SQUEEZE", [x], [o], "SqueezeOptions", dict(SqueezeDims=dims))
+                return o
             shape = d(st.sampled_from(cands))
         o = self.out("reshape", shape, X["dtype"], (X["scale"], X["zp"]))
         sh = self.const_i32("shape", shape)
@@ -421,12 +481,19 @@ class NB:
             return self.sslice(x)
         a = d(st.integers(1, shape[axis] - 1))
         sizes = [a, shape[axis] - a]
+        if sizes[1] >= 2 and d(st.booleans()):
+            b2 = d(st.integers(1, sizes[1] - 1))
+            sizes = [a, b2, sizes[1] - b2]
         outs = []
         for sz in sizes:
             so = list(shape)
             so[axis] = sz
             outs.append(self.out("splitv", so, X["dtype"], (X["scale"], X["zp"])))
-        self.op("SPLIT_V", [x, self.const_i32("sizes", sizes), self.t("axis", [], "int32", data=dict(values=[axis]))], outs, "SplitVOptions", dict(NumSplits=2), version=2)
+        spelled = list(sizes)
+        if d(st.integers(0, 2)) == 0:
+            spelled[d(st.integers(0, len(sizes) - 1))] = -1  # one size may be inferred
+        ax = axis - len(shape) if d(st.integers(0, 3)) == 0 else axis  # negative spelling of the axis
+        self.op("SPLIT_V", [x, self.const_i32("sizes", spelled), self.t("axis", [], "int32", data=dict(values=[ax]))], outs, "SplitVOptions", dict(NumSplits=len(sizes)), version=2)
         self.extra_outputs = getattr(self, "extra_outputs", []) + outs[1:]
         return outs[0]
 
